@@ -1144,3 +1144,67 @@ func capturesCell(call *ssa.Call) bool {
 	}
 	return false
 }
+
+// ---------- L7 ----------
+
+func init() {
+	register("L7", "reporting an error does not change it: no method of *EvalError writes the error's fields, directly or by handing the address of a field to a function that stores through it (CallStack.Pop), so the call stack an error carries is the same however often it is rendered", 3, ruleL7)
+	claim("C16", "L7")
+}
+
+// writesThroughParam: fn (or a callee it forwards the parameter to) stores through parameter idx.
+func writesThroughParam(fn *ssa.Function, idx int, depth int) bool {
+	if fn == nil || fn.Blocks == nil || idx >= len(fn.Params) || depth == 0 {
+		return false
+	}
+	prm := fn.Params[idx]
+	found := false
+	eachInstr(fn, func(in ssa.Instruction) {
+		switch x := in.(type) {
+		case *ssa.Store:
+			for _, b := range traceAddr(x.Addr).bases {
+				if b.v == ssa.Value(prm) {
+					found = true
+				}
+			}
+		case ssa.CallInstruction:
+			cal := x.Common().StaticCallee()
+			if cal == nil {
+				return
+			}
+			for i, a := range x.Common().Args {
+				for _, b := range traceAddr(a).bases {
+					if b.v == ssa.Value(prm) && !b.throughPtr {
+						if _, isPtr := a.Type().Underlying().(*types.Pointer); isPtr && writesThroughParam(cal, i, depth-1) {
+							found = true
+						}
+					}
+				}
+			}
+		}
+	})
+	return found
+}
+
+func ruleL7(c *Ctx) {
+	n := 0
+	for _, fn := range c.P.Funcs {
+		if fnPkgPath(fn) != modPath+"/starlark" || fn.Signature.Recv() == nil || fn.Blocks == nil {
+			continue
+		}
+		if qualType(fn.Signature.Recv().Type()) != "starlark.EvalError" {
+			continue
+		}
+		n++
+		key := fnName(fn) + ": read-only"
+		pos := c.P.Pos(fn.Pos())
+		if writesThroughParam(fn, 0, 3) {
+			c.viol(key, pos, "the method changes the error it reports on (a field of the receiver is stored, or its address is given to a function that stores through it): the second rendering, or an inspection of CallStack after the first, sees a different stack")
+		} else {
+			c.ok(key, pos, "no store through the receiver")
+		}
+	}
+	if n < 3 {
+		c.anchorFail("only %d methods of *EvalError found", n)
+	}
+}
